@@ -110,7 +110,9 @@ def run(prog: Program, rep, tier: str) -> None:
     for r in returns_of(cv):
         facts = fc.at(r).facts
         v = ctx.value(fc.resolved(r, r.value))
-        if ("==", "self.cons.size", "0") in facts or ("==", "len(self.cons)", "0") in facts:
+        sizes = ("self.cons.size", "len(self.cons)", "__item__(self.cons.shape, 0)", "self.problem.num_cons")
+        empty = any(f in facts for S in sizes for f in (("==", S, "0"), ("<=", S, "0"), ("falsy", S, None), ("<", S, "1")))
+        if empty:
             rep.check(isinstance(v, Poly) and v.is_const() == 0, "formula-cons_violation", cv.qualname, short(r), "cons_violation is 0 for m == 0", cv.loc(r))
         else:
             seen_general = True
